@@ -13,7 +13,7 @@ WORD = re.compile(r"^[A-Za-z][A-Za-z0-9_]*$")
 
 OPS_WS = ("W1", "W3", "WT", "W0", "NL", "NLI", "CE", "CD", "WFF", "WNB")
 OPS_ADJ = ("WI",)
-OPS_BOUNDARY = ("CO", "CO0", "BL", "J", "CEE", "CEG")
+OPS_BOUNDARY = ("CO", "CO0", "PPO", "PGO", "BL", "J", "CEE", "CEG")
 OPS_WORD = ("UP", "LO", "CAP")
 OPS_FILE = ("ALLUP", "ALLLO")
 OPS_LINE = ("TW", "IND0", "IND3")
@@ -126,7 +126,7 @@ class SeedInfo:
                 out.append(("WI", ln, c))
         for i in sorted(self.bound):
             b = self.bound[i]
-            for k in ("CO", "CO0", "BL"):
+            for k in ("CO", "CO0", "PPO", "PGO", "BL"):
                 if k in kinds and b["insert"]:
                     out.append((k, i, 0))
             if "J" in kinds and b["join"]:
@@ -241,6 +241,10 @@ class SeedInfo:
                 lines[ln + 1 : ln + 1] = [f"  -- {tag}"]
             elif k == "CO0":
                 lines[ln + 1 : ln + 1] = [f"-- {tag}"]
+            elif k == "PPO":
+                lines[ln + 1 : ln + 1] = [f"#ifdef VSGMC_{tag.upper()}"]  # an own-line preprocessor directive (opaque to VSG)
+            elif k == "PGO":
+                lines[ln + 1 : ln + 1] = [f"  -- synthesis vsgmc_{tag}"]  # an own-line single pragma
             elif k == "BL":
                 lines[ln + 1 : ln + 1] = [""]
             elif k == "J":
